@@ -1,0 +1,23 @@
+"""Schedule points for the verification harness in /verif.
+
+Inactive unless the environment variable ``XONSH_XONSH_VERIF`` is ``1`` *and* the
+harness has installed a plan: with the guard off ``point`` is a constant-false
+branch and nothing else in xonsh refers to this module's state.
+"""
+
+import os
+
+ENABLED = os.environ.get("XONSH_XONSH_VERIF") == "1"
+_plan = None
+
+
+def install(plan):
+    """Install (or, with ``None``, remove) the callable invoked at every point."""
+    global _plan
+    _plan = plan
+
+
+def point(name, **kw):
+    """A named schedule point; the plan may delay the calling thread here."""
+    if ENABLED and _plan is not None:
+        _plan(name, kw)
